@@ -69,9 +69,10 @@ def make_context(kind, backend, auth):
     return c
 
 
-def client_kwargs(p, auth, der, variant=0):
+def client_kwargs(p, auth, der, variant=0, ctx="make"):
     kw = {"timeout": 8.0}
-    ctx = make_context(p["ctx"], p["backend"], auth)
+    if ctx == "make":
+        ctx = make_context(p["ctx"], p["backend"], auth)
     # how the configured CAs are supplied: a file, PEM text, a hashed directory, through the caller's
     # context (load_verify_locations done by the caller), or not at all (=> the default trust store)
     if (ctx is None) != (p["casrc"] != "ctx"):
@@ -122,6 +123,66 @@ def exc_chain(e):
     return out
 
 
+HTTPS_PROXY_ROUTES = ("tunnel_https_good", "tunnel_https_bad", "tunnel_https_pinned", "tunnel_https_shared",
+                      "tunnel_https_shared_pah")
+GOOD = {"issuer": "trusted", "san": "exact", "host": "lower"}     # the server of an EARLIER connection
+
+
+def _plan_and_proxy_kw(route, auth, origin, ctx, variant, good_proxy=False):
+    """Server-side plan for a route + the proxy-related client keywords."""
+    plan, kw = {"origin": origin, "proxy": None}, {}
+    if route == "tunnel_http":
+        plan["proxy"] = "http"
+    elif route in HTTPS_PROXY_ROUTES:
+        plan["proxy"] = "https"
+        bad = route.endswith("bad") and not good_proxy
+        plan["proxy_leaf"] = auth.leaf("untrusted" if bad else "trusted", (PROXY_HOST,), None)
+        if route == "tunnel_https_pinned":
+            kw["proxy_assert_fingerprint"] = tlsnet.pins(plan["proxy_leaf"][1])[("sha256", "sha256_colon_upper")[variant % 2]]
+        if route.startswith("tunnel_https_shared"):
+            if ctx is not None:
+                kw["proxy_ssl_context"] = ctx            # ONE object for both legs
+            if route.endswith("_pah"):
+                kw["proxy_assert_hostname"] = PROXY_HOST
+    return plan, kw
+
+
+def prior_connection(p, auth, ctx, variant):
+    """History of the caller's context object: one earlier request through the SAME object, with
+    assert_hostname=<name> (after_ah) or the right pin (after_fp), same cert_reqs and route kind, to a
+    good server behind a good proxy.  Recorded, not judged."""
+    import urllib3
+    sans, cn = SANS[GOOD["san"]]
+    origin = auth.leaf("trusted", sans, cn)
+    q = dict(p, ah="match" if p["hist"] == "after_ah" else "unset", fp="right" if p["hist"] == "after_fp" else "unset",
+             sh="unset", **GOOD)
+    kw = client_kwargs(q, auth, origin[1], variant, ctx=ctx)
+    plan, pkw = _plan_and_proxy_kw(p["route"], auth, origin, ctx, variant, good_proxy=True)
+    kw.update(pkw)
+    out = {"status": 0, "exc": []}
+    net = tlsnet.TLSNet(plan)
+    pm = None
+    with warnings.catch_warnings(), net:
+        warnings.simplefilter("ignore")
+        try:
+            if p["route"] == "direct":
+                pm = urllib3.PoolManager(retries=False, **kw)
+            else:
+                scheme = "https" if plan["proxy"] == "https" else "http"
+                pm = urllib3.ProxyManager(f"{scheme}://{PROXY_HOST}:3128", retries=False, **kw)
+            out["status"] = pm.urlopen("GET", f"https://{URL_HOSTS['lower']}/").status
+        except Exception as e:  # noqa: BLE001 - recorded
+            out["exc"] = exc_chain(e)
+        out["joined"] = net.wait(14.0)
+    try:
+        if pm is not None:
+            pm.clear()
+    except Exception:  # noqa: BLE001
+        pass
+    out["check_hostname_after"] = bool(getattr(ctx, "check_hostname", False))
+    return out
+
+
 def run_point(p, variant=0, no_retry=False):
     """Execute lattice point p (dict of level names) once.  Returns the observation record."""
     import urllib3
@@ -133,16 +194,15 @@ def run_point(p, variant=0, no_retry=False):
         raise RuntimeError(f"worker backend {_BACKEND} cannot run point for {p['backend']}")
     sans, cn = SANS[p["san"]]
     origin = auth.leaf(p["issuer"], sans, cn)
-    plan = {"origin": origin, "proxy": None}
     route = p["route"]
-    if route == "tunnel_http":
-        plan["proxy"] = "http"
-    elif route in ("tunnel_https_good", "tunnel_https_bad", "tunnel_https_pinned"):
-        plan["proxy"] = "https"
-        plan["proxy_leaf"] = auth.leaf("untrusted" if route.endswith("bad") else "trusted", (PROXY_HOST,), None)
-    kw = client_kwargs(p, auth, origin[1], variant)
-    if route == "tunnel_https_pinned":
-        kw["proxy_assert_fingerprint"] = tlsnet.pins(plan["proxy_leaf"][1])[("sha256", "sha256_colon_upper")[variant % 2]]
+    ctx = make_context(p["ctx"], p["backend"], auth)
+    prior = None
+    if p.get("hist", "fresh") != "fresh" and ctx is not None and p["backend"] == "ssl":
+        # (a pyOpenSSL caller context cannot serve a second connection at all: finding C07-F2)
+        prior = prior_connection(p, auth, ctx, variant)
+    plan, pkw = _plan_and_proxy_kw(route, auth, origin, ctx, variant)
+    kw = client_kwargs(p, auth, origin[1], variant, ctx=ctx)
+    kw.update(pkw)
     seen = []
 
     class RecConn(HTTPSConnection):
@@ -156,7 +216,7 @@ def run_point(p, variant=0, no_retry=False):
             seen.append({"at": "request", "v": bool(self.is_verified), "pv": self.proxy_is_verified})
             return super().request(*a, **k)
 
-    obs = {"status": None, "exc": [], "exc_msg": "", "stage": "build"}
+    obs = {"status": None, "exc": [], "exc_msg": "", "stage": "build", "prior": prior}
     pool = pm = None
     net = tlsnet.TLSNet(plan)
     with warnings.catch_warnings(record=True) as w, net:
